@@ -175,6 +175,17 @@ class MethodRef:
         self.name = name
 
 
+def _own_nodes(fn_node):
+    """the nodes of a function body, not descending into nested functions / lambdas / classes"""
+    stack = list(fn_node.body)
+    while stack:
+        n = stack.pop()
+        yield n
+        for c in ast.iter_child_nodes(n):
+            if not isinstance(c, (ast.FunctionDef, ast.AsyncFunctionDef, ast.Lambda, ast.ClassDef)):
+                stack.append(c)
+
+
 class Frame:
     def __init__(self, func, locals_):
         self.func = func
@@ -329,12 +340,45 @@ class Interp:
         self.depth += 1
         if self.depth > 60:
             raise Unsupported("call depth exceeded")
+        if getattr(fi, 'is_generator', None) is None:
+            fi.is_generator = any(isinstance(n, (ast.Yield, ast.YieldFrom)) for n in _own_nodes(fi.node))
+        if fi.is_generator:
+            # a generator function: run eagerly and hand back the list of yielded values.  This is the lazy semantics
+            # exactly when the body has no effect of its own besides producing values, which is checked: it may not emit
+            # anything on the ghost traces beyond reading the directory listing, nor write to the heap.
+            ctx = self.ctx
+            fr.yielded = []
+            before = (len(ctx.stdout), len(ctx.stderr), len(ctx.imports), len(ctx.plugin_calls),
+                      len([e for e in ctx.fs if e[0] not in ('walk',)]))
+            log = self.start_write_log()
+            try:
+                try:
+                    self.exec_block(fi.node.body, fr)
+                except _Return:
+                    pass
+            finally:
+                writes = list(self.ctx.write_log or [])
+                self.ctx.write_log = log
+                self.depth -= 1
+            after = (len(ctx.stdout), len(ctx.stderr), len(ctx.imports), len(ctx.plugin_calls),
+                     len([e for e in ctx.fs if e[0] not in ('walk',)]))
+            if after != before or [w for w in writes if w[0] not in ctx.new_ids]:
+                raise Unsupported("generator function %s has effects of its own (lazy evaluation order would matter)" % fi.qualname)
+            if log is not None:
+                log.extend(writes)
+            return list(fr.yielded)
         try:
             self.exec_block(fi.node.body, fr)
         except _Return as r:
             return r.value
         finally:
             self.depth -= 1
+        return None
+
+    def ex_Yield(self, node, fr):
+        if not hasattr(fr, 'yielded'):
+            raise Unsupported("yield outside a generator function body")
+        fr.yielded.append(self.eval(node.value, fr) if node.value is not None else None)
         return None
 
     # ---------------------------------------------------------------- statements
